@@ -114,6 +114,14 @@ def run(chk):
         if not ok:
             chk.disagree(construct, {"src": cmd["src"]}, exp, r, "result differs from the documented definition")
 
+    # std.length of a function = number of parameters, with or without defaults (documented)
+    extra = [("std.length(function(a, b=1) 0)", 2), ("std.length(function(a=1) 0)", 1), ("std.length(function(a, b, c=a) 0)", 3),
+             ("local f(x, y=2) = 0; std.length(f)", 2), ("std.length(std.length)", 1), ("std.length(function() 0)", 0)]
+    for (src, exp), r in zip(extra, run_cmds([{"cmd": "eval", "id": i, "src": e[0]} for i, e in enumerate(extra)])):
+        chk.count(src)
+        if not (r["k"] == "val" and json.loads(r["out"]) == exp):
+            chk.disagree(f"c13:length.func:{src}", {"src": src}, exp, r, "std.length(function) is not the number of parameters")
+
     # ---------------- part A
     cmds, meta = [], []
 
